@@ -70,6 +70,13 @@ def gen_history(rng, fam, flavor, length):
     # buffers large enough for one maximal response unless the history has no MQTT requests
     small = flavor == "dump" and rng.random() < 0.5
     bufsize = rng.choice([300, 400]) if small else rng.choice([2048, 3000, 4096])
+    # the device clock is a 32-bit millisecond counter: some histories begin shortly before it wraps, so that the
+    # wrap falls into the start-up sequence (dump time-out) or into the later traffic
+    if rng.random() < 0.3:
+        ev += [f"clk{2 ** 32 - rng.choice([50, 500, 1500, 1990, 2500, 7000])}"]
+    if flavor == "faults" and rng.random() < 0.25:
+        # the SUBACK of the first connection is withheld, then the link is lost and the session is kept
+        ev += ["suback0", f"un{rng.choice([6, 7, 9])}", rng.choice(["sess1", "sess1", "sess0"]), "drop", "suback1"]
     # connect and (usually) let the initial dump finish
     ev += [f"un{rng.choice([6, 7, 8, 10])}"]
     if flavor == "faults" and rng.random() < 0.3:
@@ -78,6 +85,8 @@ def gen_history(rng, fam, flavor, length):
         ev += ["prop1"]     # requests carry their properties in the other order (correlation data before response topic)
     if flavor == "dump" and fam == 3 and rng.random() < 0.7:
         ev += [f"set:{cp('/text')}:{cp(chr(34) + 'n' * rng.choice([10, 130, 200, 256]) + chr(34))}"]
+    if fam == 3 and rng.random() < 0.7:
+        ev += [f"optsome{rng.randrange(1, 256)}", f"mode{rng.choice('ab')}{rng.randrange(256)}"]
     if flavor == "dump" and fam == 1 and rng.random() < 0.6:
         ev += [f"set:{cp('/inner/name')}:{cp(chr(34) + 'n' * rng.choice([10, 40, 60, 64]) + chr(34))}"]
         if rng.random() < 0.5:
@@ -115,6 +124,22 @@ def gen_history(rng, fam, flavor, length):
                     rt = rng.choice([cp(RESP), cp(RESP), "-"])
                     ev.append(f"pub:{cp(PREFIX + '/settings' + rng.choice(sorted(F.internal)))}:e:{rt}:{rng.randrange(256):02x}:0:0")
                 ev.append(f"un{rng.choice([3, 8, 20])}")
+        elif r < 0.44 and flavor == "limits":
+            # a Dump request (no response topic) on an internal node whose correlation data exceeds the cache
+            root = rng.choice(sorted(F.internal))
+            cd = "cd" * rng.choice([33, 40, 64])
+            ev.append(f"pub:{cp(PREFIX + '/settings' + root)}:e:-:{cd}:{rng.choice([0, 1])}:0")
+            ev.append(f"un{rng.choice([1, 3, 12])}")
+        elif r < 0.47 and flavor == "dump" and fam in (1, 3):
+            # a dump spread over many update() calls (acknowledgements one at a time) while the application toggles the
+            # Option / switches the enum variant under it
+            ev += [f"optsome{rng.randrange(1, 256)}", f"dump:{rng.choice(['-', '-', cp('/o') if fam == 3 else '-'])}", "auto0"]
+            for _ in range(rng.randrange(2, 9)):
+                ev += [f"un{rng.choice([1, 2])}", "ack1"]
+                if rng.random() < 0.3:
+                    ev.append(rng.choice(["optnone", f"optsome{rng.randrange(1, 256)}"] +
+                                         ([f"mode{rng.choice('ocab')}{rng.randrange(256)}"] if fam == 3 else [])))
+            ev += ["ackall", "auto1", f"un{rng.choice([5, 20])}"]
         elif r < 0.5:
             ev.append(f"un{rng.choice([1, 2, 4, 9])}")
         elif r < 0.58:
@@ -130,8 +155,9 @@ def gen_history(rng, fam, flavor, length):
                  "hstr256": '"' + "q" * rng.choice([0, 5, 60, 140, 250]) + '"',
                  "arr3i16": f"[{rng.randrange(-9, 9)},{rng.randrange(-300, 300)},3]"}[ty]
             ev.append(f"set:{cp(p)}:{cp(v)}")
-        elif r < 0.8 and fam == 1:
-            ev.append(rng.choice(["optnone", f"optsome{rng.randrange(256)}"]))
+        elif r < 0.8 and fam in (1, 3):
+            ev.append(rng.choice(["optnone", f"optsome{rng.randrange(256)}"] +
+                                 ([f"mode{rng.choice('ocab')}{rng.randrange(256)}"] * 2 if fam == 3 else [])))
         elif r < 0.88 and flavor in ("faults", "dump"):
             ev += rng.choice([["auto0", f"un{rng.randrange(2, 8)}", f"ack{rng.randrange(1, 3)}", f"un{rng.randrange(1, 5)}", "auto1"],
                               ["auto0", f"un{rng.randrange(2, 6)}", "ackall", "auto1", "un3"]])
@@ -170,6 +196,10 @@ def analyze(events, recs, fam, bufsize=0):
     stats = {"requests": 0, "sets_ok": 0, "lists": 0, "dumps": 0, "epochs": 0, "busy": 0, "gets": 0, "errors": 0}
     ri = 0
     pending = []          # requests on the wire to the client
+    good_updates = 0      # update() calls since the last CONNECT with the link up and acknowledgements flowing
+    updates_after_timeout = 0
+    last_now = None
+    acks_on = True
     last_st = None        # protocol state after the most recent update()
     epoch = None
     mp = None             # the multipart answer in progress: {'kind','expect','i','rt','cd'}
@@ -256,8 +286,15 @@ def analyze(events, recs, fam, bufsize=0):
                 slots = tr.count("slot")
                 if not conn:
                     mp = None
+                last_now = now
+                if conn and acks_on:
+                    good_updates += 1
+                    if epoch is not None and epoch.get("sub_now") is not None and now >= epoch["sub_now"] + 2000:
+                        updates_after_timeout += 1
                 for p in r["pkts"]:
                     if p["t"] == "CONNECT":
+                        good_updates = 0
+                        updates_after_timeout = 0
                         stats["epochs"] += 1
                         epoch = new_epoch()
                         mp = None
@@ -353,7 +390,7 @@ def analyze(events, recs, fam, bufsize=0):
                             if F.present(c[1]):
                                 reply = (req["rt"] or req["topic"], "Ok", F.json(c[1]), req["cd"], "maybe-too-large")
                             elif req["rt"] is not None:
-                                reply = (req["rt"], "Error", DISPLAY["absent"].format(d=1), req["cd"])
+                                reply = (req["rt"], "Error", DISPLAY["absent"].format(d=F.absent_depth(c[1])), req["cd"])
                         elif c[0] == "err":
                             stats["errors"] += 1
                             if req["rt"] is not None:
@@ -405,6 +442,8 @@ def analyze(events, recs, fam, bufsize=0):
                 if "sessreset" in tr:
                     mp = None
                     epoch = new_epoch()
+                    good_updates = 0
+                    updates_after_timeout = 0
                 if not conn:
                     lost = False
                 last_st = r["st"]
@@ -417,12 +456,12 @@ def analyze(events, recs, fam, bufsize=0):
         elif ev.startswith("dump:"):
             r = next_rec()
             root = "" if ev[5:] == "-" else uncp(ev[5:])
-            c = F.classify(root) if root else ("internal", "")
+            c = F.classify(root, typelevel=True) if root else ("internal", "")
             if r["tok"] == "D:ok":
-                if c[0] == "err" and c[1] != "absent":
+                if c[0] == "err":
                     fails["C10"].append(f"dump({root!r}) accepted for an invalid path")
                 else:
-                    mp = start_dump(c[1] if c[0] != "err" else "/opt")
+                    mp = start_dump(c[1])
                     if last_st == "init" and epoch is not None:
                         # the application called dump() in the one update between the timeout and the start of the
                         # initial dump: `Init + Multipart` takes its dump in place of the unrequested one (the properties
@@ -434,16 +473,39 @@ def analyze(events, recs, fam, bufsize=0):
             F.set(uncp(p), uncp(j))
         elif ev.startswith("optsome"):
             F.opt_present = True
-            F.val["/opt"] = int(ev[7:])
+            if fam == 3:
+                F.val["/o/p"] = F.val["/o/q"] = int(ev[7:])
+            else:
+                F.val["/opt"] = int(ev[7:])
         elif ev == "optnone":
             F.opt_present = False
+        elif ev.startswith("mode") and fam == 3:
+            F.mode = ev[4]
+            if ev[4] in "ab":
+                F.val["/mode/" + ev[4].upper()] = int(ev[5:] or 0)
+        elif ev == "auto0":
+            acks_on = False
+        elif ev in ("auto1",):
+            acks_on = True
         elif ev == "drop":
             pending.clear()
             lost = True
             mp = None
+            good_updates = 0
+            updates_after_timeout = 0
         elif ev == "reset":
             mp = None
             epoch = new_epoch()     # the documented API restart on the same connection
+            good_updates = 0
+            updates_after_timeout = 0
+    # progress: a connection that has been serviced long enough (with acknowledgements flowing) must have subscribed, and
+    # once the dump time-out has elapsed after the subscription it must have started its full dump
+    if epoch is not None and not lost and good_updates >= 25:
+        if epoch["alive"] and not epoch["sub"]:
+            fails["C13"].append(f"the client never subscribed on this connection ({good_updates} serviced update() calls after CONNECT)")
+        elif epoch["sub"] and not epoch["dumped"] and last_now is not None and last_now >= epoch["sub_now"] + 2000 \
+                and updates_after_timeout >= 8:
+            fails["C13"].append(f"the full dump of this connection never started (subscribed at t={epoch['sub_now']}, now t={last_now})")
     end = [r for r in recs if r["k"] == "END"]
     if end and "settings" in end[-1]:
         want = ",".join(f"{p}={F.json(p) if F.present(p) else 'absent'}" for p, _ in F.leaves)
